@@ -99,7 +99,8 @@ EXPECTED_PROBES = [
     "probe.q_request_after_skipped_timer", "probe.q_request_refused_timer_outstanding",
     "probe.t_positive_latency_received", "probe.t_unsubscribed_during_fanout",
     "probe.t_active_set_changed", "probe.t_resubscribed", "probe.l_rebalance_multi", "probe.l_retention_expired",
-    "probe.l_commit_smaller", "probe.l_churn_during_poll", "fault.crash", "fault.pause",
+    "probe.l_commit_smaller", "probe.l_churn_during_poll", "probe.l_bounce_inside_rebalance_delay",
+    "probe.l_assignment_checked_at_quiescence", "fault.crash", "fault.pause",
 ]
 SHRINK_SKIP = ("klass", "mode")
 SELFTEST_RUNS = 8
@@ -209,6 +210,15 @@ def gen_log(rng):
         else:
             ops.append({"t": t, "who": "reader", "kind": "read", "pid": rng.randrange(6), "off": rng.randrange(10),
                         "max": rng.choice([1, 5, 100])})
+    rdelay = rng.choice([0.0, 0.005, 0.05, 0.2])
+    for t in _times(rng, rng.choice([0, 0, 1, 2, 3]), horizon):
+        # bounce: leave + re-join of the same name (or join + leave of a name) inside one rebalance delay
+        m = rng.randrange(nm)
+        gap = round(max(rdelay, 0.001) * rng.choice([0.1, 0.5, 0.9]), 6)
+        first, second = rng.choice([("leave", "join"), ("leave", "join"), ("join", "leave")])
+        t = round(t + 0.00057, 6)
+        ops.append({"t": t, "who": m, "kind": first, "bounce": True})
+        ops.append({"t": round(t + gap, 6), "who": m, "kind": second, "bounce": True})
     ops.sort(key=lambda o: o["t"])
     for m in range(nm):
         if rng.random() < 0.7:
@@ -222,7 +232,7 @@ def gen_log(rng):
             "partitions": rng.randint(1, 6), "strategy": rng.choice(["range", "roundrobin", "sticky"]),
             "retention": ret, "retention_interval": rng.choice([0.01, 0.05]),
             "append_latency": rng.choice([0.0, 0.001, 0.004]), "read_latency": rng.choice([0.0, 0.0005]),
-            "rebalance_delay": rng.choice([0.0, 0.005, 0.05]), "poll_latency": rng.choice([0.0, 0.001, 0.02]),
+            "rebalance_delay": rdelay, "poll_latency": rng.choice([0.0, 0.001, 0.02]),
             "horizon": round(horizon * 1.5, 4), "ops": ops, "faults": faults}
 
 
@@ -1058,6 +1068,11 @@ class LogWorld:
         self.key_part = {}
         self.committed = {}
         self.gen_seen = 0
+        self.rdelay_ns = int(_lat(sc.get("rebalance_delay", 0.01)) * 1e9)
+        self.rebalance_due = 0
+        self.membership_dirty = False
+        self.last_change = None
+        self.bounces = self.quiescent_checks = 0
         self.rebalances_multi = 0
         self.joined = self.churn_during_poll = self.polled_records = self.commit_smaller = self.expired = 0
 
@@ -1096,9 +1111,23 @@ class LogWorld:
                 self.expired += p.high_watermark - self.first_kept[pid]
                 self.first_kept[pid] = p.high_watermark
         g = self.group
+        now = ev.time.nanoseconds
+        if ev.target is g and ev.event_type in ("Join", "Leave") and not isinstance(ev, ProcessContinuation):
+            self.rebalance_due = max(self.rebalance_due, now + self.rdelay_ns + US)
+            self.membership_dirty = True
+            name = ev.context.get("consumer_name")
+            if self.last_change and self.last_change[0] == name and self.last_change[1] != ev.event_type \
+                    and now - self.last_change[2] <= self.rdelay_ns:
+                self.bounces += 1
+            self.last_change = (name, ev.event_type, now)
         if g.generation != self.gen_seen:
             self.gen_seen = g.generation
             self.check_assignment()
+        if self.membership_dirty and now > self.rebalance_due:
+            # every rebalance that was requested has run: the assignment must partition the partition set
+            self.membership_dirty = False
+            self.quiescent_checks += 1
+            self.check_assignment("-at-quiescence")
         for name, offs in g._committed_offsets.items():
             mine = self.committed.setdefault(name, {})
             for pid, off in offs.items():
@@ -1108,7 +1137,7 @@ class LogWorld:
                                     f"{name} partition {pid}: committed offset went {old} -> {off} (during {ev.event_type})")
                 mine[pid] = off
 
-    def check_assignment(self):
+    def check_assignment(self, when=""):
         g = self.group
         members = g.consumers
         asg = g.assignments
@@ -1128,7 +1157,7 @@ class LogWorld:
         extra = [p for p in owners if not 0 <= p < self.nparts]
         if missing or dup or extra:
             d = "partition-unowned" if missing else "partition-owned-twice" if dup else "unknown-partition"
-            raise Violation(f"C19/rebalance-partition/ConsumerGroup/{strat}-{d}",
+            raise Violation(f"C19/rebalance-partition/ConsumerGroup/{strat}-{d}{when}",
                             f"generation {g.generation}, members {members}: assignment {asg} (unowned {missing}, twice {dup}, unknown {extra})")
 
     def check_append(self, rec, key, val):
@@ -1199,6 +1228,8 @@ def run_log(sc):
                 smaller = 1
     counters = {"probe.l_rebalance_multi": int(lw.rebalances_multi > 0), "probe.l_retention_expired": int(lw.expired > 0),
                 "probe.l_commit_smaller": smaller, "probe.l_churn_during_poll": int(lw.churn_during_poll > 0),
+                "probe.l_bounce_inside_rebalance_delay": int(lw.bounces > 0),
+                "probe.l_assignment_checked_at_quiescence": int(lw.quiescent_checks > 0),
                 "l_appends": sum(lw.hw), "l_polled_records": lw.polled_records, "l_rebalances": lw.group.stats.rebalances,
                 "budget_runs": int(status == "budget")}
     counters.update(fd.counters())
